@@ -4,7 +4,7 @@ LEVEL = 'exploration'
 RULE = ('generated interface types (1-6 methods in random declaration order, unexported and embedded methods, six signature kinds incl. floats, strings, two results, variadic, pointer/error), two variables per type '
         '(one nil, one holding a real implementation); for every subset of up to 3 methods (and the full set) each method is mocked with Apply or As().Return, then every slot is called through the variable: mocked slots must '
         'reach their own replacement with the exact arguments, unmocked slots must panic with "method not implements", the other variable must be untouched; half of the cases Reset and compare the variable words with the pre-mock words, '
-        'the other half drop the builder, arm finalizer-based GC-reachability monitors on the object address decoded from every stub, force collections and call again; plus two variables of one type and same-named types in one builder; the whole suite once more with debug logging on; '
+        'the other half drop the builder, arm finalizer-based GC-reachability monitors on the object address decoded from every stub, force collections and call again; plus two variables of one type and same-named types in one builder; the whole suite once more with debug logging on; a 130-method interface mocked at positions 5, 98..100, 110 and 129; '
         'distinct = (#methods, #mocked, variable) classes')
 
 
@@ -19,8 +19,9 @@ def run(ctx):
     files.update(core.dir_files('harness/c07/b/svc', 'zzverif/c07/b/svc'))
     files['zzverif/c07/ia/ifaces_gen.go'] = os.path.join(gdir, 'ifaces_gen.go')
     b = ctx.build('c07', core.MODPATH + '/zzverif/c07', files)
-    ctx.children(b, 4 if not ctx.thorough else 16, run='TestC07', timeout=2400)
+    ctx.children(b, 4 if not ctx.thorough else 16, run='TestC07$', timeout=2400)
     # once more with debug logging on: every replacement is reached through the logging wrapper
-    ctx.children(b, 2 if not ctx.thorough else 4, run='TestC07', timeout=2400, env={'VERIF_C07_DEBUG': '1'}, what='TestC07[debug logging]')
+    ctx.children(b, 2 if not ctx.thorough else 4, run='TestC07$', timeout=2400, env={'VERIF_C07_DEBUG': '1'}, what='TestC07[debug logging]')
+    ctx.children(b, 1, run='TestC07Big', timeout=300, what='TestC07Big')
     if ctx.stats.get('gc_monitors_armed', 0) == 0:
         ctx.inconclusive.append('no GC-reachability monitor could be armed')
